@@ -5,7 +5,8 @@
     Boost, iostreams and the allocator are below the model and are covered only
     by the sanitizer-instrumented correspondence run. *)
 From Coq Require Import List NArith ZArith Bool Arith.
-Require Import Celma.ArgH.ArgFile Celma.ArgH.ArgFileSafe Celma.ArgH.SubGroup Celma.ArgH.SubGroupProofs.
+Require Import Celma.ArgH.ArgFile Celma.ArgH.ArgFileSafe Celma.ArgH.SubGroup Celma.ArgH.SubGroupProofs
+               Celma.ArgH.Groups Celma.ArgH.GroupsGen Celma.ArgH.GroupsGenProofs.
 Import ListNotations.
 Require Import Celma.Common.Res Celma.ArgH.Key Celma.ArgH.Lex Celma.ArgH.Handler Celma.ArgH.Sources
                Celma.ArgH.Alloc Celma.ArgH.SafeProofs.
@@ -62,6 +63,20 @@ Theorem C04_subgroups_total :
   forall c inits sub_inits argv, nofault (eval_sg false c inits sub_inits argv).
 Proof. exact eval_sg_nofault. Qed.
 Print Assumptions C04_subgroups_total.
+
+(** ... through an argument group (Groups::evalArguments), with plain member
+    handlers and with members that own sub-group arguments: evaluation of ANY
+    words by ANY group is total - no read outside a word, the loop fuel (the
+    total length of the words) is never exhausted. *)
+Theorem C04_groups_total :
+  forall cs initss argv, nofault (eval_group false false cs initss argv).
+Proof. exact eval_group_nofault. Qed.
+Print Assumptions C04_groups_total.
+
+Theorem C04_groups_with_subgroups_total :
+  forall cs inits argv, nofault (eval_group_sg cs inits argv).
+Proof. exact eval_group_sg_nofault. Qed.
+Print Assumptions C04_groups_with_subgroups_total.
 
 (** the hand-sized buffers: the program-name copy holds the terminator (after
     the repair; the pinned size overflows by one byte for every name), the
